@@ -13,6 +13,7 @@ import (
 	"strconv"
 	"sync"
 	"sync/atomic"
+	"time"
 
 	"go.pennock.tech/tabular/auto"
 	"go.pennock.tech/tabular/texttable/decoration"
@@ -46,6 +47,7 @@ var regClock atomic.Int64
 type regLog struct {
 	g     int
 	lines []M
+	kept  [][2][]string // every listing as it was returned, and a copy taken at once
 }
 
 func (rl *regLog) do(op M, prefix string) {
@@ -72,6 +74,7 @@ func (rl *regLog) do(op M, prefix string) {
 		call["t"] = regClock.Add(1)
 		l := decoration.RegisteredDecorationNames()
 		ret["t"] = regClock.Add(1)
+		rl.kept = append(rl.kept, [2][]string{l, append([]string(nil), l...)})
 		il := make([]interface{}, len(l))
 		for i, s := range l {
 			il[i] = s
@@ -88,6 +91,32 @@ func (rl *regLog) do(op M, prefix string) {
 	rl.lines = append(rl.lines, call, ret)
 }
 
+func toIfaces(l []string) []interface{} {
+	il := make([]interface{}, len(l))
+	for i, s := range l {
+		il[i] = s
+	}
+	return il
+}
+
+// A registry call that never returns gives no answer at all: every concurrent scenario runs under a watchdog.
+// On expiry the goroutine dump is printed and the process exits with status 3; the orchestrator reports a
+// violation only if the dump shows a goroutine blocked inside the library.
+var hangTimeout = 120 * time.Second
+
+func waitOrHang(wg *sync.WaitGroup, scen string) {
+	done := make(chan struct{})
+	go func() { wg.Wait(); close(done) }()
+	select {
+	case <-done:
+	case <-time.After(hangTimeout):
+		buf := make([]byte, 4<<20)
+		n := runtime.Stack(buf, true)
+		fmt.Fprintf(os.Stderr, "vdrive: HANG scenario %s: registry calls did not return within %v\n%s\n", scen, hangTimeout, buf[:n])
+		os.Exit(3)
+	}
+}
+
 func flushRegLogs(out *bufio.Writer, scen string, logs []*regLog) int {
 	var all []M
 	for _, rl := range logs {
@@ -97,6 +126,19 @@ func flushRegLogs(out *bufio.Writer, scen string, logs []*regLog) int {
 	for _, ln := range all {
 		ln["scen"] = scen
 		writeLine(out, ln)
+	}
+	// a listing belongs to its caller: what was returned must still be what it was, whatever was registered since
+	for _, rl := range logs {
+		for _, k := range rl.kept {
+			same := len(k[0]) == len(k[1])
+			for i := 0; same && i < len(k[0]); i++ {
+				same = k[0][i] == k[1][i]
+			}
+			if !same {
+				writeLine(out, M{"ev": "listchanged", "op": "list", "scen": scen, "g": rl.g, "was": toIfaces(k[1]), "is": toIfaces(k[0])})
+			}
+		}
+		rl.kept = nil
 	}
 	return len(all) / 2
 }
@@ -181,7 +223,7 @@ func runRegistryMode(in *os.File, out *bufio.Writer) {
 				}(pi+1, pr.([]interface{}), logs[pi])
 			}
 			close(turn[0])
-			wg.Wait()
+			waitOrHang(&wg, scen)
 			nops += flushRegLogs(out, scen, logs)
 		case sc["stress"] != nil:
 			st := opMap(sc, "stress")
@@ -218,7 +260,7 @@ func runRegistryMode(in *os.File, out *bufio.Writer) {
 				}(p, logs[p])
 			}
 			close(start)
-			wg.Wait()
+			waitOrHang(&wg, scen)
 			// quiescent read-back: once the registrations have finished, the latest one is what every name
 			// denotes, and both listings show every registered name
 			q := &regLog{g: G + 1}
@@ -240,25 +282,31 @@ func runRegistryMode(in *os.File, out *bufio.Writer) {
 			R, K := opInt(st, "rounds"), opInt(st, "names")
 			for r := 0; r < R; r++ {
 				rscen := fmt.Sprintf("%s.%d", scen, r)
-				logs := []*regLog{{g: 1}}
+				logs := []*regLog{{g: 1}, {g: 2}, {g: 3}}
 				var wg sync.WaitGroup
 				stop := make(chan struct{})
 				start := make(chan struct{})
 				for p := 0; p < 2; p++ {
 					wg.Add(1)
-					go func() {
+					go func(rl *regLog) {
 						defer wg.Done()
 						<-start
-						for {
+						for k := 0; ; k++ {
 							select {
 							case <-stop:
 								return
 							default:
 							}
-							auto.ListStyles()
+							if k%2 == 0 {
+								auto.ListStyles()
+							} else if len(rl.lines) < 40 {
+								rl.do(M{"op": "list"}, prefix)
+							} else {
+								decoration.RegisteredDecorationNames()
+							}
 							runtime.Gosched()
 						}
-					}()
+					}(logs[p+1])
 				}
 				wg.Add(1)
 				go func(rl *regLog) {
@@ -271,8 +319,11 @@ func runRegistryMode(in *os.File, out *bufio.Writer) {
 					close(stop)
 				}(logs[0])
 				close(start)
-				wg.Wait()
-				nops += flushRegLogs(out, rscen, logs)
+				waitOrHang(&wg, rscen)
+				// quiescent: the listing shows every name registered in the burst
+				q := &regLog{g: 4}
+				q.do(M{"op": "list"}, prefix)
+				nops += flushRegLogs(out, rscen, append(logs, q))
 				ls := auto.ListStyles()
 				il := make([]interface{}, len(ls))
 				for i, x := range ls {
